@@ -227,7 +227,70 @@ func genSegment(r *core.Rng, h, v int64, maxW float64) (a, b pt, kind string) {
 	return
 }
 
+// c06Huge (thorough tier only, about 40 s and 1 GB): a vertical line through 2^21 + 300000 layers at vertical zoom 35
+// (2.3 km): the result is exactly that column of voxels, every layer once.
+func c06Huge(c *core.Case) {
+	const h, v = 20, 35
+	layers := int64(1<<21 + 300000)
+	lon, lat := 139.7+float64(c.I), 35.6
+	f0 := int64(-1000 - 7*c.I)
+	res := math.Ldexp(1, 25-v)
+	a, e1 := object.NewPoint(lon, lat, (float64(f0)+0.5)*res)
+	b, e2 := object.NewPoint(lon, lat, (float64(f0+layers-1)+0.5)*res)
+	c.Tag("vertical-line-of-2^21+300000-layers")
+	c.NonTrivial()
+	c.KI(layers, f0)
+	var got []string
+	var err error
+	c.Desc = func() any {
+		return map[string]any{"scenario": "vertical line", "lon": lon, "lat": lat, "first_f": f0, "layers": layers, "hZoom": h, "vZoom": v, "result_len": len(got), "error": fmt.Sprint(err)}
+	}
+	if e1 != nil || e2 != nil {
+		c.Fail("point-constructor", nil, "NewPoint: %v %v", e1, e2)
+		return
+	}
+	col, err := shape.GetExtendedSpatialIdsOnPoints([]*object.Point{a}, h, v)
+	if err != nil || len(col) != 1 {
+		c.Fail("line-error", nil, "start point lookup: %v", err)
+		return
+	}
+	first, _ := ref.ParseExt(col[0])
+	got, err = shape.GetExtendedSpatialIdsOnLine(a, b, h, v)
+	c.Call()
+	if err != nil {
+		c.Fail("line-error", nil, "GetExtendedSpatialIdsOnLine on a %d-layer vertical line returned %v", layers, err)
+		return
+	}
+	seen := make(map[int64]struct{}, len(got))
+	for _, s := range got {
+		id, e := ref.ParseExt(s)
+		if e != nil || id.H != h || id.V != v || id.X != first.X || id.Y != first.Y || id.F < f0 || id.F >= f0+layers {
+			c.Fail("line-stray", nil, "vertical line in column %d/%d/%d: result contains %q", h, first.X, first.Y, s)
+			return
+		}
+		if _, dup := seen[id.F]; dup {
+			c.Fail("line-duplicates", nil, "vertical line: layer %d returned twice", id.F)
+			return
+		}
+		seen[id.F] = struct{}{}
+	}
+	if int64(len(seen)) != layers {
+		missing := int64(-1)
+		for f := f0; f < f0+layers; f++ {
+			if _, ok := seen[f]; !ok {
+				missing = f
+				break
+			}
+		}
+		c.Fail("line-gap", nil, "vertical line through %d layers: only %d returned, first missing layer f=%d", layers, len(seen), missing)
+	}
+}
+
 func runC06(c *core.Case) {
+	if c.Tier == "thorough" && c.I < 1 {
+		c06Huge(c)
+		return
+	}
 	r := c.R
 	h, v := genZoom(r), genZoom(r)
 	if r.P(0.3) {
